@@ -61,7 +61,22 @@ class ConvertibleTensorEq(_Eq):
     id = "C06.P.key_convertible"
     cls = "ConvertibleTensor"
     fields = {"origin": "obj", "concrete": "obj", "shape": "obj"}
-    describe = "ConvertibleTensor.__eq__(other ConvertibleTensor) <=> same origin, same concrete descriptor (type AND factory signature) and same shape"
+    describe = ("ConvertibleTensor.__eq__(other ConvertibleTensor) <=> same origin, same FROZEN concrete descriptor (type and factory signature after _freeze_value - the value that is also hashed; "
+                "_freeze_value keeps types, names, kinds and scalar defaults apart, C06.P.freeze, and turns array-valued parameter defaults into tuples so that the comparison is a bool) and same shape")
+
+    def setup(self, eng, bound=None):
+        env, pre, ghost = _Eq.setup(self, eng, bound)
+        self.frozen = uf("frozen_value", Obj, Obj)
+        eng.contracts["_freeze_value"] = SContract(lambda e, p, av, kw: SObj(self.frozen(av[0].t)), "_freeze_value (C06.P.freeze: a function of its argument)")
+        return env, pre, ghost
+
+    def post(self, eng, out, p):
+        if not isinstance(out, Return):
+            return
+        r = eng.truth(out.v)
+        conds = [eng.values_eq(self.a.f["origin"], self.b.f["origin"], p), self.frozen(self.a.f["concrete"].t) == self.frozen(self.b.f["concrete"].t), eng.values_eq(self.a.f["shape"], self.b.f["shape"], p)]
+        eng.oblige("post:__eq__ true => every observable field of the key is equal (origin, frozen concrete descriptor, shape)", p, z3.Implies(r, z3.And(*conds)), "post")
+        eng.oblige("post:equal observables => __eq__ true (a cache hit is not lost)", p, z3.Implies(z3.And(*conds), r), "post")
 
 
 class OtherClass(Kernel):
